@@ -54,7 +54,7 @@ CHECKS = {
             "Exhaustive over cut positions for the small streams, sampled otherwise; full reads are served so that C06's dimension cannot interfere.",
             SIM + "fault enumeration over truncation points"),
     "C10": ("exploration",
-            "Mixed-version simulation: the writer is a frozen snapshot of the pinned tree (harness/ref, real code under another import path), the reader is the current tree under the scheduler (jobs, schedule, Read sizes, buffer size from the tape). A pair is kept only if the reference encoder+decoder round-trip it (the property's precondition); oracle: current decode == reference decode. Plus a committed golden corpus of 46 streams produced by the reference (every transform, every entropy codec, checksum 0/32/64, header and headerless, chains, a 256 KiB-block BWT) with the SHA-256 of the originals: the first 46 cases of every run.",
+            "Mixed-version simulation: the writer is a frozen snapshot of the pinned tree (harness/ref, real code under another import path), the reader is the current tree under the scheduler (jobs, schedule, Read sizes, buffer size from the tape). A pair is kept only if the reference encoder+decoder round-trip it (the property's precondition); oracle: current decode == reference decode. A tenth of the pairs use the large-block regime (one or two blocks of 150 KiB - 1 MiB, thorough up to 5 MiB, every transform kind) so that constants which only matter above some amount of data per block are exercised. Plus a committed golden corpus of 123 streams produced by the reference (every transform, every entropy codec, checksum 0/32/64, header and headerless, chains, a 256 KiB-block BWT) with the SHA-256 of the originals: the first 123 cases of every run.",
             "The snapshot is the pinned commit 76efab5 (before any hook or fix). Reverse direction (current writer, reference reader) is not part of the property and is not judged.",
             SIM + "differential decoding across two code histories (pinned reference snapshot vs current tree) + fixed golden corpus"),
     "C11": ("exploration",
@@ -74,7 +74,7 @@ CHECKS = {
             "The race detector sees only the executions explored (sampling). Race builds are about 8x slower: fewer cases than the other checks.",
             SIM + "K concurrent pipelines under one scheduler, Go race detector with a baton invisible to it, differential oracle against isolated runs"),
     "C19": ("exploration",
-            "The real CLI (main, argument parsing included) is built from the working tree with the hooks on and run as a child process on tape-generated trees (1-12 files, empty files, sub-directories) with levels 0-9 or explicit -t/-e, -b, -j, -x/-x64, --rm, -f, dir/file/stdin/stdout/output-dir targets. Families: fault-free round trip (scheduler on or off, short reads on the input); safety (existing output without force, output equal to input directly and through a symlink); kill points: the run is first executed fault-free under the in-process seeded scheduler to count its events, then re-executed with the same seed and a self-SIGKILL at event k for every k (runs of <= 120 events) or for k around the application-level points (before/after close and remove, output close) plus random ones - after each kill, every source must still exist intact or its output must decode (library Reader in the parent) to it; sink failure: the wrapped output fails from the k-th write (disk full): exit status != 0, no crash, no source lost.",
+            "The real CLI (main, argument parsing included) is built from the working tree with the hooks on and run as a child process on tape-generated trees (1-12 files, empty files, sub-directories) with levels 0-9 or explicit -t/-e, -b, -j, -x/-x64, --rm, -f, dir/file/stdin/stdout/output-dir targets (stdin also to named files that are absent, exist and are forced, or exist and must be refused). Families: fault-free round trip (scheduler on or off, short reads on the input); safety (existing output without force, output equal to input directly and through a symlink); kill points: the run is first executed fault-free under the in-process seeded scheduler to count its events, then re-executed with the same seed and a self-SIGKILL at event k for every k (runs of <= 120 events) or for k around the application-level points (before/after close and remove, output close) plus random ones - after each kill, every source must still exist intact or its output must decode (library Reader in the parent) to it; sink failure: the wrapped output fails from the k-th write (disk full): exit status != 0, no crash, no source lost.",
             "SIGKILL model (completed system calls survive; kanzi never calls fsync, so a power-loss model has nothing to check). Kills happen at hook points and at every wrapped output call, not between arbitrary instructions; file-system state only changes at system calls, all of which lie between two such points. The trace of every killed run must be a prefix of the fault-free run (checked: determinism).",
             SIM + "real CLI under an in-process scheduler, crash (self-SIGKILL) at enumerated/sampled event indexes, disk-full injection, file-system oracle"),
 }
